@@ -297,6 +297,19 @@ def cases(tier):
             else:
                 bg, bs = [f"r = {cg}"] + obs + done, [f"r = {cs}"] + obs + done
             out.append((f"instantiation-type:{sn}[{xn}]", g, sp, bg, bs, "a: int", [("int",)]))
+    # --- T17 comptime LIST arguments (frozenarray constants): one instance per distinct list, also for lists that are
+    #         equal for Python but not the same ([0.0] / [-0.0])
+    FZ = "from guppylang.std.builtins import frozenarray\n\n"
+    g = FZ + "@guppy\ndef pick[n: nat](xs: frozenarray[int, n] @comptime, k: nat @comptime) -> int:\n    return xs[0] * 100 + xs[2] + int(k)\n"
+    sp = ("@guppy\ndef pick_a() -> int:\n    return 1 * 100 + 3 + 7\n\n@guppy\ndef pick_b() -> int:\n    return 4 * 100 + 6 + 7\n")
+    for order in (("a",), ("a", "b", "a"), ("b", "a")):
+        cg = {"a": 'result("a", pick(comptime([1, 2, 3]), 7))', "b": 'result("b", pick(comptime([4, 5, 6]), 7))'}
+        cs = {"a": 'result("a", pick_a())', "b": 'result("b", pick_b())'}
+        out.append((f"comptime-list-argument[{'+'.join(order)}]", g, sp, [cg[k] for k in order], [cs[k] for k in order], "z: int", [("int",)]))
+    g = FZ + "@guppy\ndef invf[n: nat](xs: frozenarray[float, n] @comptime, x: float) -> float:\n    return x / xs[0]\n"
+    sp = "@guppy\ndef inv_p(x: float) -> float:\n    return x / 0.0\n\n@guppy\ndef inv_n(x: float) -> float:\n    return x / comptime(-0.0)\n"
+    out.append(("comptime-list-argument-signed-zero[]", g, sp, ['result("p", invf(comptime([0.0]), a))', 'result("n", invf(comptime([-0.0]), a))'],
+                ['result("p", inv_p(a))', 'result("n", inv_n(a))'], "a: float", [("float",)]))
     # --- T16 a NESTED function inside a function that is monomorphised more than once (non-capturing / capturing,
     #         recursive / not): every instance of the enclosing function needs its own complete nested function
     for cap, rec in itertools.product(("non-capturing", "capturing"), ("recursive", "plain")):
